@@ -10,6 +10,7 @@ that maintenance edits of that kind cannot change a verdict:
   N3  negations are pushed inwards: `not (a or b)` -> `not a and not b`, `not (a and b)` -> `not a or not b`, `not not a` -> `a`,
       `not a == b` -> `a != b`, `not a is None` -> `a is not None`, `not a in b` -> `a not in b` (not applied to `<`/`<=`: NaN, None);
   N4  a statement whose value is a conditional expression becomes an if-statement:  `x = a if c else b`, `x += ...`, `return ...`;
+  N12 `getattr(x, 'name')` (literal name, no default) -> `x.name`;
   N11 conditions with a constant test are folded (`a if True else b` -> `a`, `if False: ..` removed) - applied after N6;
   N10 `for i, X in enumerate(IT)` with `i` never read -> `for X in IT`;
   N9  `x = []` + `for T in IT: [if C:] x.append(E)`  ->  `x = [E for T in IT if C]` (same for set()/add);
@@ -89,6 +90,14 @@ class Normalizer(ast.NodeTransformer):
         if len(node.ops) == 1 and isinstance(node.ops[0], (ast.Eq, ast.NotEq)) and isinstance(node.left, ast.Constant) and not isinstance(node.comparators[0], ast.Constant):
             self.counts['flipped'] += 1
             return ast.copy_location(ast.Compare(left=node.comparators[0], ops=[node.ops[0]], comparators=[node.left]), node)
+        return node
+
+    # N12: getattr(x, 'name') with a literal name and no default is x.name
+    def visit_Call(self, node):
+        self.generic_visit(node)
+        if isinstance(node.func, ast.Name) and node.func.id == 'getattr' and len(node.args) == 2 and not node.keywords and isinstance(node.args[1], ast.Constant) \
+                and isinstance(node.args[1].value, str) and node.args[1].value.isidentifier():
+            return ast.copy_location(ast.Attribute(value=node.args[0], attr=node.args[1].value, ctx=ast.Load()), node)
         return node
 
     # N3
